@@ -10,6 +10,7 @@ import (
 	"os"
 	"runtime/debug"
 	"strings"
+	"sync"
 
 	"golang.org/x/tools/go/ssa"
 )
@@ -148,8 +149,16 @@ func loc(fset *token.FileSet, pos token.Pos) string {
 }
 
 func (fr *frame) where(instr ssa.Instruction) string {
-	return fr.fn.String() + " at " + loc(fr.fn.Prog.Fset, instr.Pos())
+	// cached: called on every index operation (hot path)
+	if s, ok := whereCache.Load(instr); ok {
+		return s.(string)
+	}
+	s := fr.fn.String() + " at " + loc(fr.fn.Prog.Fset, instr.Pos())
+	whereCache.Store(instr, s)
+	return s
 }
+
+var whereCache sync.Map
 
 // runDefer runs a deferred call d. It always returns normally but may set or clear fr.panicking.
 func (fr *frame) runDefer(d *deferred) {
